@@ -102,7 +102,85 @@ def build_qop(recipe, c_sys):
 
 
 def build_csys(recipe):
+    if recipe.get("basis") == "comp":
+        # a system of the same dimension over another basis (directed `basis_pair` histories only)
+        from quara.objects.composite_system import CompositeSystem
+        from quara.objects.elemental_system import ElementalSystem
+        from quara.objects.matrix_basis import get_comp_basis
+
+        return CompositeSystem([ElementalSystem(i, get_comp_basis()) for i in recipe["ids"]])
     return generate_composite_system(recipe["mode"], recipe["num"], ids_esys=list(recipe["ids"]))
+
+
+# ---------------------------------------------------------------------------------------------
+# module-level containers: hidden state that does not live on an object
+# ---------------------------------------------------------------------------------------------
+_CONTAINERS = None
+
+
+def _container_slots():
+    import sys
+
+    slots = []
+    for name, mod in sorted(sys.modules.items()):
+        if mod is None or not (name == "quara" or name.startswith("quara.")):
+            continue
+        for k, v in list(vars(mod).items()):
+            if k.startswith("__") and k.endswith("__"):
+                continue
+            if isinstance(v, (dict, list, set)):
+                slots.append((mod, k))
+            elif isinstance(v, type) and v.__module__ == name:
+                for a, val in list(vars(v).items()):
+                    if not (a.startswith("__") and a.endswith("__")) and isinstance(val, (dict, list, set)):
+                        slots.append((v, a))
+    return slots
+
+
+def container_baseline():
+    """dict / list / set attributes of quara's modules and classes as they are right after import."""
+    global _CONTAINERS
+    if _CONTAINERS is None:
+        slots = _container_slots()
+        _CONTAINERS = (slots, copy.deepcopy([getattr(o, a) for o, a in slots]))
+    return _CONTAINERS
+
+
+class pristine_containers:
+    """for the fresh world: every module / class level container whose content differs from its import-time value is
+    replaced by a copy of that value, and put back afterwards.  On a tree without such hidden state nothing is swapped."""
+
+    def __enter__(self):
+        slots, base = container_baseline()
+        self.saved = []
+        for (o, a), b in zip(slots, base):
+            cur = getattr(o, a, None)
+            try:
+                same = type(cur) == type(b) and len(cur) == len(b) and (len(b) == 0 or cur == b)
+            except Exception:
+                same = True
+            if not same:
+                try:
+                    setattr(o, a, copy.deepcopy(b))
+                    self.saved.append((o, a, cur))
+                except (AttributeError, TypeError):
+                    pass
+        return self
+
+    def __exit__(self, *exc):
+        for o, a, cur in self.saved:
+            setattr(o, a, cur)
+        return False
+
+
+def reset_containers():
+    """start of a run: hidden module-level state left by an earlier run in this worker process is dropped, so that one
+    record is one execution whatever the process ran before (replay in a fresh interpreter included)."""
+    pc = pristine_containers().__enter__()
+    return len(pc.saved)
+
+
+container_baseline()
 
 
 def build_tomo(recipe, testers):
